@@ -50,6 +50,18 @@ def find_flags(cls: ClassInfo) -> Dict[str, dict]:
                 tested, val = self_attr(t), True
             elif isinstance(t, ast.UnaryOp) and isinstance(t.op, ast.Not) and self_attr(t.operand):
                 tested, val = self_attr(t.operand), False
+            # sentinel cache: `if self.X is None: … self.X = <value>`  (dirty value None)
+            if isinstance(t, ast.Compare) and len(t.ops) == 1 and isinstance(t.ops[0], ast.Is) and self_attr(t.left) \
+                    and isinstance(t.comparators[0], ast.Constant) and t.comparators[0].value is None:
+                cname = self_attr(t.left)
+                fills = any(isinstance(st, ast.Assign) and any(self_attr(x) == cname for x in st.targets)
+                            and not (isinstance(st.value, ast.Constant) and st.value.value is None)
+                            for st in ast.walk(ast.Module(body=node.body, type_ignores=[])))
+                if fills:
+                    e = flags.setdefault(cname, {'dirty': None, 'guards': []})
+                    if e['dirty'] is None:
+                        e['guards'].append((c, fn, node))
+                continue
             if tested is None:
                 continue
             resets = False
@@ -159,7 +171,7 @@ def summarize(ctx, cls: ClassInfo, defcls: ClassInfo, fn: ast.FunctionDef, depth
                         facts.add(('fire', 'model'))
                     if cs.fires_param:
                         facts.add(('fire', 'param'))
-        if isinstance(st, ast.Assign) and isinstance(st.value, ast.Constant) and isinstance(st.value.value, bool):
+        if isinstance(st, ast.Assign) and isinstance(st.value, ast.Constant) and (isinstance(st.value.value, bool) or st.value.value is None):
             for t in st.targets:
                 a = self_attr(t)
                 if a:
@@ -173,7 +185,7 @@ def summarize(ctx, cls: ClassInfo, defcls: ClassInfo, fn: ast.FunctionDef, depth
             for t in st.targets:
                 a = self_attr(t)
                 if a:
-                    k |= {('set', a, True), ('set', a, False)}
+                    k |= {('set', a, True), ('set', a, False), ('set', a, None)}
         return k
 
     facts = cfg.must_facts(gen, kill)
